@@ -53,11 +53,14 @@ def _split_field_name(field: str) -> t.Sequence[str]:
         if field.isupper() or field.islower() or field.istitle():
             yield field
             return
-        seps = re.split(r'([A-Z])', field)
-        if seps[0] != '':
-            yield seps[0]
-        for (s1, s2) in _pairwise(seps[1:]):
-            yield s1 + s2
+        # a new word starts at every upper-case letter (of any alphabet, as for the tests above)
+        word = ''
+        for ch in field:
+            if ch.isupper() and word != '':
+                yield word
+                word = ''
+            word += ch
+        yield word
 
     return tuple(itertools.chain.from_iterable(map(split_case, parts)))
 
